@@ -39,3 +39,6 @@ func (lb *LoadBalancer) VerifProbeOnce(b *Backend) {
 
 // VerifJumpHash exposes the integer jump-hash step for the exhaustive sweep (C06).
 func VerifJumpHash(key uint64, n int32) int32 { return jumpHash(key, n) }
+
+// VerifCleanup runs one cleanup pass of the pool (what the 30 s ticker does).
+func (p *WebSocketPool) VerifCleanup() { p.cleanup() }
